@@ -328,7 +328,7 @@ pub fn serialize_into(f: StdFile, s: &TargetEnvState, Tracked(w): Tracked<&mut W
 //@closure 0 skeleton=`task::spawn_blocking(<CLOSURE>).await` becomes=`read_saved_closure(file_path, target_id, Tracked(w))`
 //@contract
     ensures
-        /*[C02.needs-record]*/ r matches Some(s) ==> old(w).store.contains_key(state_path(target.project_dir, target.id)) && old(w).store[state_path(target.project_dir, target.id)] == Stored::State(s.view()),
+        /*[C02.needs-record,C12.no-skip]*/ r matches Some(s) ==> old(w).store.contains_key(state_path(target.project_dir, target.id)) && old(w).store[state_path(target.project_dir, target.id)] == Stored::State(s.view()),
         r is Some ==> *final(w) == *old(w),
         /*[C03.read-back]*/ old(w).store.contains_key(state_path(target.project_dir, target.id)) && old(w).store[state_path(target.project_dir, target.id)] is State
             && !read_fails(state_path(target.project_dir, target.id)) ==> r is Some,
@@ -835,7 +835,7 @@ impl TargetEnvState {
 //@fn src/engine/incremental/mod.rs env_state_has_not_changed_since_last_successful_execution ret=r
 //@contract
     ensures
-        /*[C02.theorem,C02.needs-record,C18.decision-local]*/ r ==> *final(w) == *old(w) && old(w).store.contains_key(state_path(target.project_dir, target.id))
+        /*[C02.theorem,C02.needs-record,C18.decision-local,C12.no-skip]*/ r ==> *final(w) == *old(w) && old(w).store.contains_key(state_path(target.project_dir, target.id))
             && (old(w).store[state_path(target.project_dir, target.id)] matches Stored::State(ev) && env_unchanged(ev, old(w).snap, *target_input, target_output)),
         /*[C05.corrupt]*/ !r ==> final(w).store == old(w).store || final(w).store == old(w).store.remove(state_path(target.project_dir, target.id)),
         /*[C03.skip]*/ old(w).store.contains_key(state_path(target.project_dir, target.id)) && !read_fails(state_path(target.project_dir, target.id))
@@ -865,7 +865,7 @@ pub fn await_build(future: BuildFuture, target: &TargetMetadata, Tracked(w): Tra
 //@replace `future.await?` => `await_build(future, target).await?` rule=R5 pre why=`awaiting the build future is the external call await_build (contract above)`
 //@contract
     ensures
-        /*[C02.theorem,C02.needs-record]*/ r matches Ok(IncrementalRunResult::Skipped) ==> *final(w) == *old(w) && old(w).store.contains_key(state_path(target.project_dir, target.id))
+        /*[C02.theorem,C02.needs-record,C12.no-skip]*/ r matches Ok(IncrementalRunResult::Skipped) ==> *final(w) == *old(w) && old(w).store.contains_key(state_path(target.project_dir, target.id))
             && (old(w).store[state_path(target.project_dir, target.id)] matches Stored::State(ev) && env_unchanged(ev, old(w).snap, *target_input, target_output)),
         /*[C03.no-input]*/ target_input.is_empty_spec() ==> !(r matches Ok(IncrementalRunResult::Skipped)),
         // the converse of C02.theorem, which is C03 itself: a readable record that is the state of the current world means "skipped"
